@@ -10,7 +10,10 @@
 (* interleaving / start order / connect order / lazy / cache / debug /     *)
 (* transport).  The k-th step() call of every simulator must equal the     *)
 (* k-th canonical observation, and at the end no canonical observation may *)
-(* be missing.                                                             *)
+(* be missing.  When the canonical run is aborted (e.g. by the same-time   *)
+(* loop guard) only the outcome is compared (compare = FALSE): which steps *)
+(* other simulators still perform before the abort is schedule-dependent   *)
+(* by nature.                                                              *)
 (*   <<"V04", tid, l, clause, sim, k>>     <<"T04", tid, n>>                *)
 (***************************************************************************)
 EXTENDS Naturals, Sequences, FiniteSets, TLC, Json, IOUtils
@@ -31,16 +34,17 @@ Same(obs, e) == obs.t = e.t /\ ToSet(obs.inp) = ToSet(e.inp)
 
 Consume ==
   /\ l <= Len(Batch[tid].ev)
-  /\ IF Ev.k = "SB" THEN
+  /\ IF Ev.k = "SB" /\ Batch[tid].compare THEN
         LET s == Ev.s  k == pos[s] + 1  can == Batch[tid].canon[s] IN
         /\ pos' = [pos EXCEPT ![s] = k]
         /\ IF k > Len(can) THEN PrintT(<<"V04", tid, l, "C04_extra_step", s, k>>) /\ nv' = nv + 1
            ELSE IF ~Same(can[k], Ev) THEN
                 PrintT(<<"V04", tid, l, IF can[k].t # Ev.t THEN "C04_step_time_differs" ELSE "C04_inputs_differ", s, k>>) /\ nv' = nv + 1
            ELSE UNCHANGED nv
+     ELSE IF Ev.k = "SB" THEN UNCHANGED <<pos, nv>>
      ELSE IF Ev.k = "END" THEN
         /\ IF Ev.r # Batch[tid].canon_r THEN PrintT(<<"V04", tid, l, "C04_outcome_differs", Ev.r, 0>>) /\ nv' = nv + 1
-           ELSE IF Ev.r = "ok" /\ \E s \in SimsOf(tid) : pos[s] < Len(Batch[tid].canon[s])
+           ELSE IF Batch[tid].compare /\ Ev.r = "ok" /\ \E s \in SimsOf(tid) : pos[s] < Len(Batch[tid].canon[s])
              THEN PrintT(<<"V04", tid, l, "C04_missing_step", CHOOSE s \in SimsOf(tid) : pos[s] < Len(Batch[tid].canon[s]), 0>>) /\ nv' = nv + 1
            ELSE UNCHANGED nv
         /\ UNCHANGED pos
